@@ -11,6 +11,7 @@ def dispatch (line : String) : String :=
   | "FM" :: toks => Drv.FormsD.handle toks
   | "DL" :: toks => Drv.DeadlineD.handle toks
   | "WN" :: toks => Drv.DeadlineD.handleWait toks
+  | "SI" :: toks => Drv.DeadlineD.handleSelII toks
   | "SS" :: toks => Drv.SessionD.handle toks
   | "IA" :: toks => Drv.IaD.handle toks
   | "RP" :: toks => Drv.ReplD.handle toks
